@@ -1,4 +1,6 @@
 import Poulpy.Lemmas.Avx
+import Poulpy.Lemmas.AvxIndex
+import Poulpy.Lemmas.AvxQ120
 /-
 C10 — all back ends give bit-identical results: lane level.
 
@@ -371,23 +373,98 @@ theorem nfc_slices_agree (op : String) (b lsh : W) (h : Radix128 b lsh) (l : Lis
 example : isOkWith (slice128Avx "nfc_middle" 12#64 3#64 [(0, 100000, 5), (0, -5, 0), (0, 1, 1), (0, 2, 2), (0, 3, 3)])
     [(1285, 195), (-40, 0), (9, 0), (18, 0), (27, 0)] = true := by decide
 
-/-! ### index kernels (`automorphism.rs`, `switch_ring.rs`)
-
-/- FULL STATEMENT (not proved): for every power of two `n ≥ 4`, every odd `p : i64` and all `res a : List W` of
-   length `n`, `automorphismAvx p res a = automorphismRef p res a` (the gather through `inv_mod_pow2(p mod 2n)`
-   equals the scatter with running index `k += p mod 2n`; needs `inv · p ≡ 1 (mod 2n)` from the Hensel iteration and
-   the bijectivity of `i ↦ i·p mod 2n`), and for all admissible degree pairs
-   `switchRingAvx res a = switchRingRef res a`.  Both index kernels are executable in the model and tied to the
-   four back ends for every degree pair in {1,…,64}² and every odd exponent class (exhaustively for n ≤ 16);
-   what is proved is the lane part: -/ -/
+/-! ### index kernels (`automorphism.rs`, `switch_ring.rs`) -/
 
 /-- lane part of `znx_automorphism_avx`: `(v ^ mask) - mask` with `mask = cmpgt(t, n−1)` negates exactly the
 lanes whose exponent `t` lies in `[n, 2n)` -/
-theorem automorphism_cond_negate_partial (v t m : W) :
+theorem automorphism_cond_negate (v t m : W) :
     sub_epi64 (xor_si256 v (cmpgt_epi64 t m)) (cmpgt_epi64 t m) = if BitVec.slt m t then -v else v := condNegate_eq v t m
 example : isOkWith (automorphismAvx (-5) [0, 0, 0, 0, 0, 0, 0, 0] [1, 2, 3, 4, 5, 6, 7, 8]) [1, 4, 7, -2, -5, -8, 3, 6] = true
     ∧ isOkWith (automorphismRef (-5) [0, 0, 0, 0, 0, 0, 0, 0] [1, 2, 3, 4, 5, 6, 7, 8]) [1, 4, 7, -2, -5, -8, 3, 6] = true
     ∧ isOkWith (switchRingAvx [9, 9, 9, 9] [1, 2, 3, 4, 5, 6, 7, 8]) [1, 3, 5, 7] = true
     ∧ isOkWith (switchRingAvx [9, 9, 9, 9, 9, 9, 9, 9] [1, 2, 3, 4]) [1, 0, 2, 0, 3, 0, 4, 0] = true := by decide
+
+/-! ### `znx_switch_ring_avx`: general degrees -/
+
+/-- for every pair of power-of-two degrees `n_in = 2^ki`, `n_out = 2^ko` (all pairs the entry assertions admit) and
+all lane contents, the AVX kernel (copy / `< 4` fallback / `span` gathers `a[(4j+l)·gap]` / zero + strided stores
+`res[(i+l)·gap] = a[i+l]`) and the reference kernel (`step_by` zip) both return the ring model's
+`znxSwitchRing` (C09, `Model/Ring.lean`); in particular they are equal and neither reads or writes out of range -/
+theorem switch_ring_avx_eq_ring_model (res a : List W) (ki ko : Nat) (hr : res.length = 2 ^ ko) (ha : a.length = 2 ^ ki) :
+    switchRingAvx res a = .ok (ofI (znxSwitchRing res.length (toI a))) ∧ switchRingAvx res a = switchRingRef res a := by
+  obtain ⟨h1, h2⟩ := switchRing_all res a ki ko hr ha
+  exact ⟨h2, by rw [h1, h2]⟩
+example : isOkWith (switchRingAvx [9, 9, 9, 9] [1, 2, 3, 4, 5, 6, 7, 8, 9, 10, 11, 12, 13, 14, 15, 16]) [1, 5, 9, 13] = true
+    ∧ ofI (znxSwitchRing 4 (toI [1, 2, 3, 4, 5, 6, 7, 8, 9, 10, 11, 12, 13, 14, 15, 16])) = [1, 5, 9, 13] := by decide
+
+/-! ### `znx_automorphism_avx`: general degrees -/
+
+/-- for every degree `n = 2^k ≤ 2^61`, every odd `p : i64` (any sign, any size) and all lane contents, the AVX kernel —
+`p mod 2n` by masks, `inv_mod_pow2` by Hensel lifting in wrapping `usize` arithmetic, lane offsets
+`[0, inv, 2·inv, 3·inv] mod 2n`, `t_base += 4·inv mod 2n`, gather at `t & (n−1)`, sign mask `t > n−1`,
+`(v ^ m) − m` — and the reference kernel (scatter with running index) both return the ring model's
+`znxAutomorphism p` (C09); every gather index is in range; the previous content of `res` is irrelevant -/
+theorem automorphism_avx_eq_ring_model (p : Int) (res a : List W) (k : Nat) (hk : k ≤ 61)
+    (hr : res.length = 2 ^ k) (ha : a.length = 2 ^ k) (hp : p % 2 = 1) :
+    automorphismAvx p res a = .ok (ofI (znxAutomorphism p (toI a))) ∧ automorphismAvx p res a = automorphismRef p res a := by
+  obtain ⟨h1, h2⟩ := automorphism_all p res a k hk hr ha hp
+  exact ⟨h2, by rw [h1, h2]⟩
+example : ofI (znxAutomorphism (-5) (toI [1, 2, 3, 4, 5, 6, 7, 8])) = [1, 4, 7, -2, -5, -8, 3, 6] := by decide
+
+/-- the modular inverse used by the gather: `inv_mod_pow2(p, bits) · p ≡ 1 (mod 2^bits)` for every odd `p`, `1 ≤ bits ≤ 63` -/
+theorem inv_mod_pow2_correct (p : W) (bits : Nat) (h1 : 1 ≤ bits) (hb : bits ≤ 63) (hodd : p &&& 1#64 = 1#64) :
+    ((invModPow2 p bits).toNat * p.toNat) % 2 ^ bits = 1 ∧ (invModPow2 p bits).toNat < 2 ^ bits := inv_spec p bits h1 hb hodd
+example : invModPow2 11#64 4 = 3#64 ∧ invModPow2 0xFFFFFFFFFFFFFFFB#64 6 = 51#64 := by decide
+
+/-! ### NTT120 AVX integer kernels with a scalar twin (`ntt120/arithmetic_avx.rs`, `mat_vec_avx.rs`, `vec_znx_dft_consume.rs`)
+
+Lanes are `u64` values as `Nat` with explicit `% 2^64` after every `add/sub_epi64` (`Model/AvxQ120.lean`). -/
+section Q120
+open Avx.Q120
+
+/-- the Primes30 moduli and the derived constants are in the range the reductions need -/
+theorem primes30_ranges : ∀ q ∈ Q, 2 ^ 29 < q ∧ q < 2 ^ 30 := by decide
+
+/-- `cond_sub` = one conditional subtraction (lanes below `2^63`, where the signed compare is the unsigned order) -/
+theorem cond_sub_eq (x q : Nat) (hx : x < 2 ^ 63) (hq : q < 2 ^ 63) : condSub x q = if q ≤ x then x - q else x :=
+  condSub_eq x q hx hq
+example : condSub 7 5 = 2 ∧ condSub 3 5 = 3 := by decide
+
+/-- `barrett_reduce(tmp, q, mu) = tmp % q` for every modulus of the Primes30 shape and every `tmp < 2^61` — the
+reference code uses `%` -/
+theorem barrett_reduce_eq_mod (tmp q mu : Nat) (hq1 : 2 ^ 29 < q) (hq2 : q < 2 ^ 30) (hmu : mu = 2 ^ 61 / q) (ht : tmp < 2 ^ 61) :
+    barrett tmp q mu = tmp % q := barrett_eq tmp q mu hq1 hq2 hmu ht
+example : barrett (2 ^ 61 - 1) 1073479681 (2 ^ 61 / 1073479681) = (2 ^ 61 - 1) % 1073479681 := by decide
+
+/-- `reduce_b_to_canonical` + `c_from_b_avx2`, one prime lane = `c_from_b_ref` (`r = x % q`, `(r << 32) % q`) for every
+q120b lane `x < q·2^33` -/
+theorem c_from_b_avx_eq_ref (x q mu pow32 : Nat) (hq1 : 2 ^ 29 < q) (hq2 : q < 2 ^ 30) (hmu : mu = 2 ^ 61 / q)
+    (hp : pow32 = 2 ^ 32 % q) (hx : x < q * 2 ^ 33) : cFromBLane x q mu pow32 = cFromBRef x q :=
+  cFromB_eq x q mu pow32 hq1 hq2 hmu hp hx
+example : cFromBLane (1073479681 * 2 ^ 33 - 1) 1073479681 (2 ^ 61 / 1073479681) (2 ^ 32 % 1073479681)
+    = cFromBRef (1073479681 * 2 ^ 33 - 1) 1073479681 := by decide
+
+/-- `b_from_znx64_avx2` lane = `b_from_znx64_ref` element for every `i64` bit pattern, and the lane is congruent to the
+signed coefficient modulo `q` -/
+theorem b_from_znx64_avx_eq_ref (x oq : Nat) (hx : x < 2 ^ 64) (ho : oq < 2 ^ 64) : bFromZnx64Lane x oq = bFromZnx64Ref x oq :=
+  bFromZnx64_eq x oq hx ho
+theorem b_from_znx64_represents (x q : Nat) (hx : x < 2 ^ 64) (hq0 : 0 < q) (hq : q < 2 ^ 63) :
+    ((bFromZnx64Ref x (q - 2 ^ 63 % q) : Nat) : Int) % q = (sgn x) % q := bFromZnx64_congr x q hx hq0 hq
+example : bFromZnx64Lane (2 ^ 64 - 1) (1073479681 - 2 ^ 63 % 1073479681) % 1073479681 = 1073479680 := by decide
+
+/-- q120b × q120c dot product: no 64-bit overflow and AVX = reference = exact integer expression for every
+`ell ≤ 10 000` (the documented limit), every split point `15 ≤ h ≤ 32` and reduction constants `< 2^30` -/
+theorem mat_vec_bbc_no_overflow (h s2l s2h : Nat) (l : List (Nat × Nat)) (hl : Lanes l) (hlen : l.length ≤ 10000)
+    (hh1 : 15 ≤ h) (hh2 : h ≤ 32) (hs1 : s2l < 2 ^ 30) (hs2 : s2h < 2 ^ 30) :
+    bbcAvx h s2l s2h l = bbcExact h s2l s2h l ∧ bbcRef h s2l s2h l = bbcExact h s2l s2h l ∧ bbcExact h s2l s2h l < 2 ^ 64 :=
+  bbc_no_overflow h s2l s2h l hl hlen hh1 hh2 hs1 hs2
+example : bbcAvx 24 5 7 [(2 ^ 64 - 1, 2 ^ 64 - 1), (3, 4)] = bbcRef 24 5 7 [(2 ^ 64 - 1, 2 ^ 64 - 1), (3, 4)] := by decide
+
+/-- `vec_znx_dft_consume`: the in-place `q120b → i128` compaction never overwrites an element it still has to read -/
+theorem dft_consume_no_clobber (n k c k' c' : Nat) (hc : c < n) (hc' : c' < n) (later : k < k' ∨ (k = k' ∧ c < c')) :
+    2 * n * k + 2 * c + 1 < 4 * n * k' + 4 * c' := consume_no_clobber n k c k' c' hc hc' later
+example : 2 * 8 * 1 + 2 * 7 + 1 < 4 * 8 * 2 + 4 * 0 := by decide
+
+end Q120
 
 end C10
